@@ -22,6 +22,7 @@ func init() {
 			ruleC04R4(r)
 			ruleC04R5(r)
 			ruleResumeRestoresConnected(r, "R6", "Downstream")
+			ruleC04R8(r)
 			ruleLoopDrivers(r, "R7", "the ack flusher stays periodic: in package iscp every receive inside a loop from a time source is a Ticker, a time.After, or a Timer that is re-armed inside the loop when its branch continues the loop", func(fn *ssa.Function) bool { return fnPkgPath(fn) == modPath+"/iscp" }, 1)
 		},
 	})
@@ -506,5 +507,98 @@ func ruleC04R5(r *Run) {
 		name := fnName(fn)
 		ok := flushDefer != nil && dominatesInstr(closeDefer, flushDefer)
 		r.Check(name+" signals after the last flush", ok, posOf(p, closeDefer), name, "defer close(finalAckFlushed) must be registered before the deferred final flush so that (LIFO) the flush runs first")
+	}
+}
+
+// emptyEdgeOf: if ifs decides on len(<field fk>) compared with 0 (or 1), the successor taken when the container is empty.
+func emptyEdgeOf(p *Prog, ifs *ssa.If, fk string) *ssa.BasicBlock {
+	bo, ok := ifs.Cond.(*ssa.BinOp)
+	if !ok {
+		return nil
+	}
+	isLen := func(v ssa.Value) bool {
+		c, ok := v.(*ssa.Call)
+		if !ok {
+			return false
+		}
+		b, isB := c.Call.Value.(*ssa.Builtin)
+		return isB && b.Name() == "len" && hasLeaf(p.Leaves(c.Call.Args[0], provOpts{}), "field:"+fk)
+	}
+	x, y, op := bo.X, bo.Y, bo.Op
+	if !isLen(x) && isLen(y) {
+		x, y = y, x
+		switch op {
+		case token.LSS:
+			op = token.GTR
+		case token.GTR:
+			op = token.LSS
+		case token.LEQ:
+			op = token.GEQ
+		case token.GEQ:
+			op = token.LEQ
+		}
+	}
+	if !isLen(x) {
+		return nil
+	}
+	k, isK := constInt(y)
+	if !isK {
+		return nil
+	}
+	t, f := ifs.Block().Succs[0], ifs.Block().Succs[1]
+	switch {
+	case op == token.EQL && k == 0, op == token.LSS && k == 1, op == token.LEQ && k == 0:
+		return t
+	case op == token.NEQ && k == 0, op == token.GTR && k == 0, op == token.GEQ && k == 1:
+		return f
+	}
+	return nil
+}
+
+// ruleC04R8: the flusher may skip sending only when there is nothing to acknowledge at all. A return that leaves the
+// function before the ack is built must lie on the empty edge of a length test of every buffer that feeds the ack.
+func ruleC04R8(r *Run) {
+	r.Begin("R8", "nothing is left unacknowledged by a skipped flush: in the function that builds the DownstreamChunkAck, every return that is reachable without building the ack is dominated by the empty edge of a length test of each of the three ack buffers", 1)
+	p := r.P
+	ackT := r.named("/message", "DownstreamChunkAck")
+	if ackT == nil {
+		return
+	}
+	for _, lit := range p.allLiterals(ackT) {
+		if fnPkgPath(lit.Fn) != modPath+"/iscp" {
+			continue
+		}
+		fn := lit.Fn
+		name := fnName(fn)
+		k := 0
+		for _, b := range fn.Blocks {
+			ret, isRet := b.Instrs[len(b.Instrs)-1].(*ssa.Return)
+			if !isRet || b == fn.Recover {
+				continue
+			}
+			// reachable without building the ack?
+			if reachesFromEntryWithout(fn, func(ins ssa.Instruction) bool { return ins == ssa.Instruction(ret) }, func(ins ssa.Instruction) bool { return ins == ssa.Instruction(lit.Alloc) }) == nil {
+				continue
+			}
+			k++
+			var missing []string
+			for _, buf := range ackBuffers {
+				ok := false
+				allInstrs(fn, func(ins ssa.Instruction) {
+					if ifs, isIf := ins.(*ssa.If); isIf {
+						if ee := emptyEdgeOf(p, ifs, buf); ee != nil && edgeDominates(ifs.Block(), ee, b) {
+							ok = true
+						}
+					}
+				})
+				if !ok {
+					missing = append(missing, buf[strings.LastIndexByte(buf, '.')+1:])
+				}
+			}
+			r.Check(fmt.Sprintf("%s skip#%d", name, k), len(missing) == 0, posOf(p, ret), name, fmt.Sprintf("this return skips the ack; it is not confined to the case where these buffers are empty: %v (their content would stay unacknowledged until something else triggers a flush, or for ever at close)", missing))
+		}
+		if k == 0 {
+			r.Check(name+" never skips", true, p.pos(fn.Pos()), name, "no return bypasses the construction of the ack")
+		}
 	}
 }
